@@ -41,7 +41,7 @@ fn build(spelling: &str) -> Result<Prog, String> {
 }
 
 pub fn run(ctx: &Ctx) {
-    ctx.set_rule("every jump spelling of the source grammar (31 Jcc/JMP spellings + JCXZ + 5 LOOP spellings, lower and upper case) is assembled through the Preprocessor (forward and backward target) and the emitted line executed by the Interpreter under every one of the 2^16 flag words (Jcc) / every CX x ZF (JCXZ, LOOPx); enumerated points are distinct by construction; non-trivial = flag word on which the predicate differs from its value on F000h, or CX in {0,1,2,FFFF}");
+    ctx.set_rule("every jump spelling of the source grammar (31 Jcc/JMP spellings + JCXZ + 5 LOOP spellings, lower and upper case) is assembled through the Preprocessor (forward and backward target) and the emitted line executed by the Interpreter under every one of the 2^16 flag words (Jcc) / every CX x ZF (JCXZ, LOOPx); enumerated points are distinct by construction;; every ordered pair of spellings (second one in both cases) assembled adjacent, with a label in between and after a CMP: the second must be emitted exactly as when it stands alone; L3 family programs incl. conditional jumps that close a loop counted by a byte in memory (registers and often the flags identical each time the jump is taken) non-trivial = flag word on which the predicate differs from its value on F000h, or CX in {0,1,2,FFFF}");
     ctx.assume("predicate table written by hand from the 8086 manual (refmodel::jcc_predicate)");
     ctx.set_exhaustive(true);
     let openq = Quirks::from_keys(|k| ctx.is_open(k));
